@@ -125,6 +125,7 @@ def run(ctx):
             det = fam.make(cfg)
             items = fam.start(det, cfg, hist) or hist
             setref_at = int(crng.integers(1, max(2, len(items) - 2))) if fam.kind == "batch" and crng.random() < 0.7 else None
+            tree_ref = hist[0][0] if fam.kind == "batch" else None     # the values the reference summary was last built from
             twins = []          # (twin, offset_total, spawn_index, further_drifts, kind)
             raw = []            # raw scalar observations (CUSUM carry-over)
             drift_idx = []
@@ -134,6 +135,12 @@ def run(ctx):
                 # explicit set_reference twin
                 if setref_at is not None and i == setref_at:
                     B = items[int(crng.integers(0, i))][0]      # an earlier batch (same width)
+                    if crng.random() < 0.4 and tree_ref is not None:
+                        # ... or the very values the current reference summary was built from (the user re-installs the
+                        # reference, possibly while a drift is pending): still "a new detector on that reference"
+                        B = tree_ref
+                        ctx.count(f"{name}:set_reference-with-the-current-reference")
+                    tree_ref = B
                     seed = int(crng.integers(0, 2**31))
                     for dd in [det] + [t[0] for t in twins]:
                         np.random.seed(seed); dd.set_reference(B.copy())
@@ -150,6 +157,7 @@ def run(ctx):
                     if fam.kind == "batch":
                         np.random.seed(it[1])       # the running detector re-builds its reference inside this update
                         tw.set_reference(items[i - 1][0].copy())
+                        tree_ref = items[i - 1][0]
                     twins.append([tw, T, i, 0, "drift"])
                 try:
                     fam.feed(det, it)
